@@ -331,7 +331,13 @@ func c12Compare(p histParams, hist []string) (string, []string, []core.Violation
 		refSafe[s] = true
 	}
 	for _, s := range obs.Safe {
-		if !refSafe[s] {
+		vouched := false
+		for _, ev := range hist { // the trusted peer announced or sent it: "safe" is then the trusted peer's word
+			if ev == "inv:T:"+s || ev == "tx:T:"+s {
+				vouched = true
+			}
+		}
+		if !refSafe[s] && !vouched {
 			fail("no-vouching", "tx reported safe only because of untrusted traffic (involving "+lastU+")", fmt.Sprintf("tx %s is reported safe with the untrusted events %v but not without them", s, hist))
 		}
 	}
@@ -345,7 +351,7 @@ func c12Scenarios() []histParams {
 	cfg.InitialChain, cfg.StartHeight = 12, 10
 	// second scenario: one level deeper over the events around an outstanding / delivered-but-unprocessed block
 	// request and a verified untrusted peer's transactions
-	focus := []string{"ext:1", "ans", "tick:250", "tick:2300", "uh:good", "uinv:R3", "utx:R3", "uxtx:R3", "inv:T:R3", "ublock:fake", "uxblock:fake"}
+	focus := []string{"ext:1", "ans", "tick:250", "tick:2300", "restart", "uh:good", "uinv:R3", "utx:R3", "uxtx:R3", "inv:T:R3", "ublock:fake", "uxblock:fake"}
 	return []histParams{{Prop: "C12", Cfg: cfg, Boot: "synced", Events: ev, Tx: true},
 		{Prop: "C12", Cfg: cfg, Boot: "synced", Events: focus, Tx: true, ExtraDepth: 1}}
 }
